@@ -285,6 +285,28 @@ func provenance(b *harness.B, c *chaingen.Chain, s sample) {
 			}
 		}
 	}
+	// the verdict depends on the state passed in, not on which states were looked at before: a v2 block commits to
+	// its parent state, so against a state that differs in one field (same chain index) it must be refused, whatever
+	// was validated just before - and the original must still be accepted right after
+	if s.valid && s.b.V2 != nil {
+		alt := s.cs
+		alt.SiafundTaxRevenue = alt.SiafundTaxRevenue.Add(types.NewCurrency64(1))
+		alt2 := s.cs
+		alt2.FoundationSubsidyAddress[5] ^= 0x10
+		seq := []struct {
+			st   consensus.State
+			want bool
+		}{{s.cs, true}, {alt, false}, {s.cs, true}, {alt2, false}, {alt, false}, {s.cs, true}}
+		for k, q := range seq {
+			err := consensus.ValidateBlock(q.st, s.b, s.bs)
+			b.Eval(1)
+			b.Count("state_identity_comparisons", 1)
+			if (err == nil) != q.want {
+				b.Violate("C09/provenance/verdict-depends-on-previously-seen-state", fmt.Sprintf("call %d of an alternating sequence over the genuine parent state and two states differing from it in one field (same chain index): accepted=%v, expected %v", k, err == nil, q.want), wit)
+				break
+			}
+		}
+	}
 	for name, mk := range variants {
 		blk, ok := mk()
 		if !ok {
